@@ -4,6 +4,8 @@
 package masswallet
 
 import (
+	"errors"
+	"fmt"
 	"sort"
 
 	"github.com/massnetorg/mass-core/wire"
@@ -132,31 +134,50 @@ func (w *WalletManager) VerifRunImportStep(walletId string) (bool, error) {
 	h := w.ntfnsHandler
 	stop := make(chan struct{})
 	done := make(chan struct{})
+	leaked := false
 	go func() {
 		defer close(done)
 		select {
 		case <-h.sigSuspend:
-			<-h.sigResume
+			select {
+			case <-h.sigResume:
+			case <-stop:
+				leaked = true
+			}
 		case <-stop:
 		}
 	}()
 	fin, err := h.asyncImport(walletId)
 	close(stop)
 	<-done
+	if leaked {
+		h.suspended = false // the stub goes away; a later step starts a fresh hand-shake
+		return fin, fmt.Errorf("%w (asyncImport returned: finish=%v err=%v)", ErrVerifFollowerLeftSuspended, fin, err)
+	}
 	return fin, err
 }
+
+// ErrVerifFollowerLeftSuspended: a background step suspended the follower and returned
+// without resuming it - the real handle() goroutine would stay parked on sigResume for ever.
+var ErrVerifFollowerLeftSuspended = errors.New("verif: background step returned without resuming the follower")
 
 // VerifRunRemove runs asyncRemove synchronously (all phases) with the same stub.
 func (w *WalletManager) VerifRunRemove(walletId string) error {
 	h := w.ntfnsHandler
 	stop := make(chan struct{})
 	done := make(chan struct{})
+	leaked := false
 	go func() {
 		defer close(done)
 		for {
 			select {
 			case <-h.sigSuspend:
-				<-h.sigResume
+				select {
+				case <-h.sigResume:
+				case <-stop:
+					leaked = true
+					return
+				}
 			case <-stop:
 				return
 			}
@@ -165,6 +186,10 @@ func (w *WalletManager) VerifRunRemove(walletId string) error {
 	err := h.asyncRemove(walletId)
 	close(stop)
 	<-done
+	if leaked {
+		h.suspended = false // the stub goes away; a later step starts a fresh hand-shake
+		return fmt.Errorf("%w (asyncRemove returned: %v)", ErrVerifFollowerLeftSuspended, err)
+	}
 	return err
 }
 
